@@ -13,7 +13,8 @@ META = {
     "every connected message. Oracle: the target's class-3 duplicate detector never fires (consecutive messages on a connection "
     "carry different counts, within an operation, between repetitions and across the wrap); composed over ordered pairs of operations "
     "from the per-phase records: last(A, p) != first(B, phase after A); plus a continuous mixed history of all operations crossing the "
-    "wrap. states = visited (operation, phase) pairs; distinct = distinct (operation, phase).",
+    "wrap; fragmented reads whose 1st / 2nd-3rd fragment reply is an empty 'partial transfer'; single calls of 65533, 65534 (thorough also 65535, 131069) requests, "
+    "i.e. around the counter's modulus. states = visited (operation, phase) pairs; distinct = distinct (operation, phase).",
     "explanation": "exhaustive exploration of the (counter phase x operation) graph with a duplicate detector in the target",
     "assumptions": [
         "the counter is positioned by drawing from the driver's own generator when it is reachable (else by sending 1-count filler messages); the oracle reads only the wire",
